@@ -8,27 +8,35 @@ NOTE = ("Trusted: Lean kernel + axioms {propext, Classical.choice, Quot.sound}; 
         "address is not part of this model (arena model); std::vec::Vec run side by side is the reference for 'what std does'.")
 CLAIMS = {
     "C13": dict(
-        text="Vec part. Theorems (Lean, for all vectors/arguments): each listed Vec method on the slot machine refines the List "
-             "specification (contents, returned value, panic iff the spec's precondition fails), keeps len <= cap, reserve(n) gives "
-             "cap >= len + n, RawVec growth is max(2*cap, required). Range bounds: C13_drain_partial under overflow checks or end != "
-             "usize::MAX, C13_drain_counterexample (F7) otherwise. Correspondence: results, len, capacity, contents (ids and values) "
+        text="Vec part. Theorems (Lean, for all vectors/arguments, sized and zero-sized elements): push, pop, insert, remove, swap_remove, "
+             "truncate, clear, append, split_off, drain (every range form; the accepted ranges are the same with and without overflow "
+             "checks), retain, drain_filter (also when dropped early), into_iter (front and back) on the slot machine refine the List "
+             "specification (contents, returned values, panic iff index/range out of bounds or the growth is refused), keep len <= cap; "
+             "reserve(n)/try_reserve(n) give cap >= len + n, growth is max(2*cap, len+n). Not proved, only compared: resize, extend*, "
+             "splice, dedup*, shrink_to_fit, clone, into_boxed_slice, from_iter_in/collect_in, vec!, io::Write. Correspondence: results, len, capacity, contents (ids and values) "
              "of every call agree between crate and model; oracle: values, contents, len, panic/no-panic agree with std::vec::Vec run "
              "side by side; cap >= len, cap >= len + reserved; neighbours (other vectors, raw canary blocks, a String, a Box in the same "
              "arena) are re-verified after every call.",
         note=NOTE),
     "C15": dict(
-        text="Vec part. Theorems (Lean): the ownership invariant Own (ids owned by the vector, dropped, moved out and leaked are a "
-             "permutation of the ids ever inserted, which are pairwise distinct) is preserved by the listed methods with no leak on "
-             "non-panicking calls; dropping the vector drops exactly the owned ids; into_bump_slice emits no drop. Correspondence: the "
+        text="Vec part. Theorems (Lean): the ownership invariant Own (ids owned by the vector, dropped, moved out and held elsewhere are a "
+             "permutation of the ids ever created, which are pairwise distinct) is preserved with no leak by push, pop, insert, remove, "
+             "swap_remove, truncate/clear, append, split_off, drain and into_iter (partially consumed from both ends; leaks only when "
+             "forgotten), retain, drain_filter; dropping the vector drops exactly the owned ids; into_bump_slice emits no drop; hence "
+             "exactly-once at the end. Not proved, only compared: resize, extend*, splice, dedup*, clone, into_boxed_slice, "
+             "from_iter_in, vec!. Correspondence: the "
              "sequence of destructor calls and of values handed to the caller of every call agrees between crate and model; oracle: "
              "per-id drop ledger (no double drop, nothing dropped or moved is reachable, nothing lost on non-panicking calls, everything "
              "dropped exactly once after the containers and the arena are dropped, the arena's drop runs no destructor).",
         note=NOTE),
     "C16": dict(
-        text="Vec part. Theorems (Lean, for every callback answer function and panic index): Own (with leaks allowed) is preserved "
-             "along the unwinding path of the listed callback-taking methods (*_partial); the full statement is false for DrainFilter: "
-             "C16_drain_filter_counterexample (F5). Correspondence + oracle: the harness enumerates the panic index of predicate / key / "
+        text="Vec part. Theorems (Lean, for every callback answer function and every panic index): Own (leaks allowed only for a "
+             "forgotten iterator or an unwinding Drain/IntoIter destructor) is preserved along the unwinding paths of drain_filter "
+             "(predicate panicking in a caller's next() or in the destructor, or a yielded element's destructor panicking - the F5 "
+             "scenario, fixed in /repo), retain, truncate/clear/drop and into_iter/drain dropped with panicking destructors, and by "
+             "dropping the vector afterwards. Not proved, only exercised: dedup_by(_key), resize/extend_from_slice/clone with a "
+             "panicking Clone, extend/splice/from_iter_in with a panicking iterator, vec!. Correspondence + oracle: the harness enumerates the panic index of predicate / key / "
              "Clone / Drop / iterator callbacks under catch_unwind (one panic per call) and checks the drop ledger and reachability after "
-             "the unwinding and again after dropping the containers; F5 is reproduced on the real crate and reported as a known finding.",
+             "the unwinding and again after dropping the containers (F5 was reproduced this way on the pinned tree before its fix).",
         note=NOTE),
 }
